@@ -308,6 +308,30 @@ def main_match(fn_body, ty_suffix):
             vs = names(a)
             inner = [x for x in walk(a["body"]) if id(x) in ids and x is not m] if depth < 3 else []
             cand = [x for x in inner if vs & {n for aa in x["arms"] for n in names(aa)}]
+            def value_of(e, d=0):
+                """the node that produces the arm's value, looking through blocks, `?`, Ok(..) and looked-through helper calls"""
+                e = strip(e)
+                if d > 8 or not isinstance(e, dict):
+                    return e
+                k_ = kind(e)
+                if k_ == "Block":
+                    if e.get("expr") is not None:
+                        return value_of(e["expr"], d + 1)
+                    if e["stmts"] and e["stmts"][-1]["k"] in ("Expr", "Semi"):
+                        return value_of(e["stmts"][-1]["e"], d + 1)
+                    return e
+                if k_ == "Try":
+                    return value_of(e["e"], d + 1)
+                if k_ == "Ret" and e.get("e") is not None:
+                    return value_of(e["e"], d + 1)
+                if k_ == "Call" and e.get("args") and last(e.get("def") or (strip(e["f"]).get("res") or {}).get("def") or "") in ("Ok", "Some") and len(e["args"]) == 1:
+                    return value_of(e["args"][0], d + 1)
+                return e
+            if cand:
+                # a delegation hands the whole answer to the helper: the helper's match IS the arm's value (a predicate helper whose
+                # answer is only one ingredient of the arm does not take the arm's place)
+                v_ = value_of(a["body"])
+                cand = [x for x in cand if x is v_]
             if cand and len(vs) > 1:
                 inn = max(cand, key=lambda x: len(x["arms"]))
                 got = [aa for aa in flat(inn, depth + 1) if names(aa) & vs]
